@@ -3,7 +3,7 @@
    Statements only.  Raw XML abstraction, XmlOK, canonical writer: Tablexml.v; names: Names.v. *)
 From Coq Require Import List ZArith NArith Lia Bool Arith.
 Import ListNotations.
-Require Import Vault Vaultproof Row Table Grid Tableabs Tablexml Tablexmlproof Tableproof6 Names Namesproof Namesproof2 TableLive TableLiveproof Tablexml2 Tablexml2proof.
+Require Import Vault Vaultproof Row Table Grid Tableabs Tablexml Tablexmlproof Tableproof6 Names Namesproof Namesproof2 Names2 Names2proof TableLive TableLiveproof Tablexml2 Tablexml2proof.
 Open Scope Z_scope.
 
 (* ---- full statement (structural part): from any well-formed state whose rows fit the declared columns, after any
@@ -115,3 +115,16 @@ Print Assumptions C07_wrappers_conservative.
 Theorem C07_wrappers_visible_table_valid : forall x : xtable2, XmlOK2 x = true -> XmlOK (flatten x) = true.
 Proof. exact XmlOK2_visible. Qed.
 Print Assumptions C07_wrappers_visible_table_valid.
+
+(* ---- the NamedRange.name rule AS DERIVED FROM THE LIVE SETTER on every run (harness/gen_names.py: the per-character
+        tests are evaluated on every code point, the first-character test likewise, each shape test — a
+        re.fullmatch(pattern, name) or the hand-written letters-then-digits scanner — becomes a sequence of
+        (class, once | one-or-more) items): if that data is the specification's data, the setter accepts exactly the
+        specification's range names, for ALL strings.  The instance (Gen_Namesok.gen_setter_rule_is_lo) is re-proved on
+        every run by [reflexivity] on the generated data; a rule that changed (e.g. \d for [0-9]) makes it fail. ---- *)
+Theorem C07_named_range_rule_from_source : forall (sp : list N) (charrej firstrej : ranges) (shapes : list (list ritem)),
+  charrej = lit_charrej -> firstrej = lit_firstrej ->
+  (shapes = [lit_shape_r1c1; lit_shape_a1] \/ shapes = [lit_shape_a1; lit_shape_r1c1]) ->
+  forall s : str, nr_rule_ok sp charrej firstrej shapes s = lo_range_name_ok sp s.
+Proof. exact nr_rule_equiv. Qed.
+Print Assumptions C07_named_range_rule_from_source.
